@@ -136,34 +136,61 @@ Section Abstract.
   (* ---------------------------------------------------------------------------------------------- multi-segment *)
   Definition reset (st : conn) : conn := set_acc st 0 [].
 
-  (* the first part: the target is learnt from the header held by this part *)
-  Lemma add_multi_first r ce (st : conn) f e nf p0 tail :
-    frame_law ce (c_comp st) f e nf -> c_target st = 0 -> c_acc st = [] ->
-    e = p0 ++ tail -> fc_hlen fc <= zlen p0 ->
-    add_multi r st p0 = Conn.add_multi_go fc r st p0 (zlen e).
+  (* the target the code knows after having accumulated n bytes of an envelope of length len *)
+  Definition known_target (n len : Z) : Z := if n <? fc_hlen fc then 0 else len.
+
+  (* one more part of an envelope that is being accumulated: a ++ p is still a strict prefix of e *)
+  Lemma add_multi_more r ce (st : conn) f e nf p tail :
+    frame_law ce (c_comp st) f e nf ->
+    c_target st = known_target (zlen (c_acc st)) (zlen e) -> c_acc st ++ p ++ tail = e -> zlen (c_acc st ++ p) < zlen e ->
+    add_multi r st p = (set_acc st (known_target (zlen (c_acc st ++ p)) (zlen e)) (c_acc st ++ p), [], RxOk).
   Proof.
-    intros (_ & _ & _ & (hb & body & h & He & Hhl & Hhd & Ht & _) & _) Htg Hacc Hsplit Hlen.
-    unfold Conn.add_multi. rewrite Htg. cbn [Z.eqb].
-    assert (Hp : exists x, p0 = hb ++ x).
-    { rewrite He in Hsplit. destruct (app_prefix_split hb body p0 tail Hsplit) as (x & Hx & _).
-      - unfold zlen in *. lia.
-      - exists x. exact Hx. }
-    destruct Hp as (x & ->). destruct (Hhd x) as (rest' & Hd). rewrite Hd, Ht. reflexivity.
+    intros (_ & Hne & _ & (hb & body & h & He & Hhl & Hhd & Ht & _) & _) Htg Hcat Hlt.
+    assert (He0 : zlen e <> 0) by (intro Hz; apply Hne; apply zlen_zero_nil; exact Hz).
+    unfold Conn.add_multi, Conn.add_multi_go. set (acc' := c_acc st ++ p) in *.
+    assert (Hpre : zlen (c_acc st) <= zlen acc') by (unfold acc'; rewrite zlen_app; pose proof (zlen_nonneg p); lia).
+    unfold known_target in *.
+    destruct (Z.ltb_spec (zlen acc') (fc_hlen fc)) as [Hs|Hs].
+    - (* the header is not complete yet *)
+      destruct (Z.ltb_spec (zlen (c_acc st)) (fc_hlen fc)); [|lia].
+      rewrite Htg. cbn [Z.eqb]. replace (fc_hlen fc <=? zlen acc') with false by lia. cbn [andb negb]. reflexivity.
+    - replace (fc_hlen fc <=? zlen acc') with true by lia. rewrite andb_true_r.
+      assert (Hp : exists x, acc' = hb ++ x).
+      { assert (E : hb ++ body = acc' ++ tail) by (unfold acc'; rewrite <- app_assoc, Hcat; symmetry; exact He).
+        destruct (app_prefix_split hb body acc' tail E) as (x & Hx & _); [unfold zlen in *; lia|]. exists x. exact Hx. }
+      destruct Hp as (x & Hx). destruct (Hhd x) as (rest' & Hd).
+      destruct (Z.ltb_spec (zlen (c_acc st)) (fc_hlen fc)).
+      + rewrite Htg. cbn [Z.eqb]. rewrite Hx, Hd, Ht, <- Hx.
+        replace (zlen e =? 0) with false by lia. replace (zlen e =? zlen acc') with false by lia. reflexivity.
+      + rewrite Htg. replace (zlen e =? 0) with false by lia. replace (zlen e =? zlen acc') with false by lia. reflexivity.
   Qed.
 
-  (* a part that does not complete the envelope is accumulated and nothing is delivered *)
-  Lemma add_multi_go_more r (st : conn) p tgt :
-    tgt <> zlen (c_acc st ++ p) ->
-    Conn.add_multi_go fc r st p tgt = (set_acc st tgt (c_acc st ++ p), [], RxOk).
-  Proof. intro Hn. unfold Conn.add_multi_go. destruct (Z.eqb_spec tgt (zlen (c_acc st ++ p))); [contradiction|reflexivity]. Qed.
-
   (* the part that completes the envelope: the accumulator is reset and the reassembled frame is delivered *)
-  Lemma add_multi_go_last r ce (st : conn) f e nf p :
-    frame_law ce (c_comp st) f e nf -> calm r nf -> c_acc st ++ p = e ->
-    Conn.add_multi_go fc r st p (zlen e) = (reset st, [nf], RxOk).
+  Lemma add_multi_last r ce (st : conn) f e nf p :
+    frame_law ce (c_comp st) f e nf -> calm r nf ->
+    c_target st = known_target (zlen (c_acc st)) (zlen e) -> c_acc st ++ p = e ->
+    add_multi r st p = (reset st, [nf], RxOk).
   Proof.
-    intros Hl Hc He. unfold Conn.add_multi_go. rewrite He, Z.eqb_refl.
-    pose proof (read_frame_calm r (reset st) ce f e nf [] Hl Hc) as Hr. rewrite app_nil_r in Hr. unfold reset in Hr. rewrite Hr. reflexivity.
+    intros Hl Hc Htg Hcat. pose proof Hl as (_ & Hne & _ & (hb & body & h & He & Hhl & Hhd & Ht & _) & _).
+    assert (He0 : zlen e <> 0) by (intro Hz; apply Hne; apply zlen_zero_nil; exact Hz).
+    assert (Hlen : fc_hlen fc <= zlen e) by (rewrite He, zlen_app, Hhl; pose proof (zlen_nonneg body); lia).
+    pose proof (read_frame_calm r (reset st) ce f e nf [] Hl Hc) as Hr. rewrite app_nil_r in Hr. unfold reset in Hr.
+    unfold Conn.add_multi, Conn.add_multi_go. rewrite Hcat.
+    replace (fc_hlen fc <=? zlen e) with true by lia. rewrite andb_true_r.
+    unfold known_target in Htg.
+    destruct (Z.ltb_spec (zlen (c_acc st)) (fc_hlen fc)).
+    - rewrite Htg. cbn [Z.eqb]. destruct (Hhd body) as (rest' & Hd). rewrite He at 1. rewrite Hd, Ht.
+      replace (zlen e =? 0) with false by lia. rewrite Z.eqb_refl. cbn [negb andb]. rewrite Hr. reflexivity.
+    - rewrite Htg. replace (zlen e =? 0) with false by lia. rewrite Z.eqb_refl. cbn [negb andb]. rewrite Hr. reflexivity.
+  Qed.
+
+  (* a zero-length part on an idle accumulator changes nothing *)
+  Lemma add_multi_empty_idle r (st : conn) :
+    c_target st = 0 -> c_acc st = [] -> 0 < fc_hlen fc -> add_multi r st [] = (st, [], RxOk).
+  Proof.
+    intros Ht Ha Hh. unfold Conn.add_multi, Conn.add_multi_go. rewrite Ht, Ha. cbn [app Z.eqb andb negb].
+    replace (fc_hlen fc <=? zlen (@nil Z)) with false by (rewrite zlen_nil; lia). cbn [andb].
+    destruct st as [m c t a]; cbn in *; subst; reflexivity.
   Qed.
 
   (* ---------------------------------------------------------------------------------------------- the read loop *)
@@ -221,83 +248,6 @@ Section Abstract.
   Qed.
 
   (* ---------------------------------------------------------------------------------------------- (2) modern *)
-  (* the parts after the first one *)
-  Lemma parts_run r ce c (f : F) e nf : forall ps (st : conn) bss,
-    frame_law ce c f e nf -> calm r nf ->
-    c_modern st = true -> c_comp st = c -> c_target st = zlen e -> c_acc st ++ concat ps = e ->
-    ps <> [] -> Forall part_ok ps -> seg_encoded sc c (map WPart ps) bss ->
-    forall k rest, rx_run (length ps + k) r st (concat bss ++ rest) = prepend [nf] (rx_run k r (reset st) rest).
-  Proof.
-    induction ps as [|p ps IH]; intros st bss Hl Hc Hm Hcomp Htg Hacc Hne Hparts Henc k rest; [contradiction|].
-    inversion Henc as [|w bs ws bss' Hsl Henc']; subst w ws bss. cbn [ws_self ws_payload] in Hsl.
-    inversion Hparts as [|x0 l0 Hp Hps]; subst x0 l0.
-    cbn [concat length Nat.add]. rewrite <- app_assoc.
-    pose proof Hsl as (_ & Hbne & _).
-    assert (Ht0 : c_target st =? 0 = false).
-    { rewrite Htg. destruct Hl as (_ & Hene & _). apply Z.eqb_neq. intro Hz. apply Hene. apply zlen_zero_nil. exact Hz. }
-    destruct ps as [|p' ps'].
-    - (* last part *)
-      cbn [concat] in Hacc. rewrite app_nil_r in Hacc.
-      rewrite (rx_run_step _ r st (reset st) bs (concat bss' ++ rest) [nf] Hbne).
-      + inversion Henc' as [|]; subst bss'. cbn [concat app]. reflexivity.
-      + unfold Conn.rx_step. rewrite Hm. rewrite (read_segment_law r st false p bs _ ltac:(rewrite Hcomp; exact Hsl)).
-        unfold Conn.add_multi. rewrite Ht0, Htg.
-        rewrite (add_multi_go_last r ce st f e nf p); [reflexivity|rewrite Hcomp; exact Hl|exact Hc|exact Hacc].
-    - (* an intermediate part: strictly shorter than the envelope, because the parts that follow are not empty *)
-      set (st1 := set_acc st (zlen e) (c_acc st ++ p)).
-      rewrite (rx_run_step _ r st st1 bs (concat bss' ++ rest) [] Hbne).
-      + rewrite prepend_nil.
-        rewrite (IH st1 bss' Hl Hc); try assumption; try reflexivity.
-        * cbn [c_acc st1 set_acc]. rewrite <- app_assoc. exact Hacc.
-        * discriminate.
-      + unfold Conn.rx_step. rewrite Hm. rewrite (read_segment_law r st false p bs _ ltac:(rewrite Hcomp; exact Hsl)).
-        unfold Conn.add_multi. rewrite Ht0, Htg.
-        rewrite add_multi_go_more; [reflexivity|].
-        inversion Hps as [|x1 l1 Hp' Hps']; subst x1 l1. unfold part_ok in Hp'.
-        rewrite <- Hacc. cbn [concat]. rewrite !zlen_app. pose proof (zlen_nonneg (concat ps')). lia.
-  Qed.
-
-  (* one envelope cut into >= 1 parts, the first of which holds the header *)
-  Lemma multi_run r ce c (f : F) e nf p0 ps (st : conn) bss :
-    frame_law ce c f e nf -> calm r nf ->
-    c_modern st = true -> c_comp st = c -> c_target st = 0 -> c_acc st = [] ->
-    concat (p0 :: ps) = e -> Forall part_ok (p0 :: ps) -> fc_hlen fc <= zlen p0 ->
-    seg_encoded sc c (map WPart (p0 :: ps)) bss ->
-    forall k rest, rx_run (length (p0 :: ps) + k) r st (concat bss ++ rest) = prepend [nf] (rx_run k r st rest).
-  Proof.
-    intros Hl Hc Hm Hcomp Htg Hacc Hcat Hparts Hhl Henc k rest.
-    inversion Henc as [|w bs ws bss' Hsl Henc']; subst w ws bss. cbn [ws_self ws_payload] in Hsl.
-    inversion Hparts as [|x0 l0 Hp Hps]; subst x0 l0. subst e.
-    cbn [concat length Nat.add]. rewrite <- app_assoc.
-    pose proof Hsl as (_ & Hbne & _).
-    assert (Hst : reset st = st).
-    { unfold reset, set_acc. destruct st as [m cc t a]. cbn in *. subst. reflexivity. }
-    assert (Hl' : frame_law ce (c_comp st) f (p0 ++ concat ps) nf) by (rewrite Hcomp; exact Hl).
-    pose proof (add_multi_first r ce st f (p0 ++ concat ps) nf p0 (concat ps) Hl' Htg Hacc eq_refl Hhl) as Hfirst.
-    destruct ps as [|p' ps'].
-    - (* a single part *)
-      cbn [concat] in *. rewrite app_nil_r in *.
-      rewrite (rx_run_step _ r st st bs (concat bss' ++ rest) [nf] Hbne).
-      + inversion Henc'; subst. reflexivity.
-      + unfold Conn.rx_step. rewrite Hm. rewrite (read_segment_law r st false p0 bs _ ltac:(rewrite Hcomp; exact Hsl)).
-        rewrite Hfirst. rewrite (add_multi_go_last r ce st f p0 nf p0); [rewrite Hst; reflexivity|exact Hl'|exact Hc|].
-        rewrite Hacc. reflexivity.
-    - set (e := p0 ++ concat (p' :: ps')) in *.
-      set (st1 := set_acc st (zlen e) p0).
-      rewrite (rx_run_step _ r st st1 bs (concat bss' ++ rest) [] Hbne).
-      + rewrite prepend_nil.
-        rewrite (parts_run r ce (c_comp st) f e nf (p' :: ps') st1 bss'); try assumption; try reflexivity.
-        * f_equal. f_equal. unfold reset, st1, set_acc. cbn. destruct st as [m cc t a]. cbn in *. subst. reflexivity.
-        * discriminate.
-        * rewrite Hcomp. exact Henc'.
-      + unfold Conn.rx_step. rewrite Hm. rewrite (read_segment_law r st false p0 bs _ ltac:(rewrite Hcomp; exact Hsl)).
-        rewrite Hfirst. rewrite add_multi_go_more.
-        * rewrite Hacc. reflexivity.
-        * rewrite Hacc. cbn [app]. unfold e. rewrite zlen_app.
-          inversion Hps as [|? ? Hp' _]; subst. unfold part_ok in Hp'. cbn [concat]. rewrite zlen_app.
-          pose proof (zlen_nonneg (concat ps')). lia.
-  Qed.
-
   Lemma seg_encoded_app_inv c ws1 ws2 bss :
     seg_encoded sc c (ws1 ++ ws2) bss -> exists b1 b2, bss = b1 ++ b2 /\ seg_encoded sc c ws1 b1 /\ seg_encoded sc c ws2 b2.
   Proof.
@@ -313,18 +263,68 @@ Section Abstract.
     split; [constructor; assumption|cbn; congruence].
   Qed.
 
-  (* the receive machine folded over the segments of ANY segmentation (whose split envelopes carry their header in the
-     first part) *)
+  (* zero-length parts after an envelope has been delivered (or before the next one starts) *)
+  Lemma empty_parts_run r c : forall ps (st : conn) bss,
+    0 < fc_hlen fc -> c_modern st = true -> c_comp st = c -> c_target st = 0 -> c_acc st = [] ->
+    concat ps = [] -> seg_encoded sc c (map WPart ps) bss ->
+    forall k rest, rx_run (length ps + k) r st (concat bss ++ rest) = rx_run k r st rest.
+  Proof.
+    induction ps as [|p ps IH]; intros st bss Hh Hm Hcomp Htg Hacc Hcat Henc k rest.
+    - inversion Henc; subst. reflexivity.
+    - cbn [concat] in Hcat. apply app_eq_nil in Hcat. destruct Hcat as [-> Hcat].
+      inversion Henc as [|w bs ws bss' Hsl Henc']; subst w ws bss. cbn [ws_self ws_payload] in Hsl.
+      cbn [concat length Nat.add]. rewrite <- app_assoc. pose proof Hsl as (_ & Hbne & _).
+      rewrite (rx_run_step _ r st st bs (concat bss' ++ rest) [] Hbne).
+      + rewrite prepend_nil. apply IH; assumption.
+      + unfold Conn.rx_step. rewrite Hm. rewrite (read_segment_law r st false [] bs _ ltac:(rewrite Hcomp; exact Hsl)).
+        rewrite add_multi_empty_idle by assumption. reflexivity.
+  Qed.
+
+  (* the parts of ONE envelope, cut anywhere (inside the header as well), empty parts allowed anywhere:
+     invariant = the accumulator holds a strict prefix a of e and the target is what a reveals *)
+  Lemma parts_run r ce c (f : F) e nf : 0 < fc_hlen fc -> forall ps (st : conn) bss,
+    frame_law ce c f e nf -> calm r nf ->
+    c_modern st = true -> c_comp st = c ->
+    c_target st = known_target (zlen (c_acc st)) (zlen e) -> c_acc st ++ concat ps = e -> zlen (c_acc st) < zlen e ->
+    seg_encoded sc c (map WPart ps) bss ->
+    forall k rest, rx_run (length ps + k) r st (concat bss ++ rest) = prepend [nf] (rx_run k r (reset st) rest).
+  Proof.
+    intro Hh. induction ps as [|p ps IH]; intros st bss Hl Hc Hm Hcomp Htg Hcat Hlt Henc k rest.
+    - cbn [concat] in Hcat. rewrite app_nil_r in Hcat. rewrite Hcat in Hlt. lia.
+    - inversion Henc as [|w bs ws bss' Hsl Henc']; subst w ws bss. cbn [ws_self ws_payload] in Hsl.
+      cbn [concat length Nat.add]. rewrite <- app_assoc. pose proof Hsl as (_ & Hbne & _).
+      assert (Hl' : frame_law ce (c_comp st) f e nf) by (rewrite Hcomp; exact Hl).
+      cbn [concat] in Hcat.
+      assert (Hle : zlen (c_acc st ++ p) <= zlen e).
+      { rewrite <- Hcat. rewrite !zlen_app. pose proof (zlen_nonneg (concat ps)). lia. }
+      destruct (Z.eq_dec (zlen (c_acc st ++ p)) (zlen e)) as [Heq|Hneq].
+      + (* this part completes the envelope; whatever follows is empty *)
+        assert (Hrest : concat ps = []).
+        { apply zlen_zero_nil. rewrite <- Hcat in Heq. rewrite !zlen_app in Heq. lia. }
+        assert (Hfull : c_acc st ++ p = e) by (rewrite <- Hcat, Hrest, app_nil_r; reflexivity).
+        rewrite (rx_run_step _ r st (reset st) bs (concat bss' ++ rest) [nf] Hbne).
+        * f_equal. apply (empty_parts_run r c ps (reset st) bss'); try assumption; reflexivity.
+        * unfold Conn.rx_step. rewrite Hm. rewrite (read_segment_law r st false p bs _ ltac:(rewrite Hcomp; exact Hsl)).
+          rewrite (add_multi_last r ce st f e nf p Hl' Hc Htg Hfull). reflexivity.
+      + set (st1 := set_acc st (known_target (zlen (c_acc st ++ p)) (zlen e)) (c_acc st ++ p)).
+        rewrite (rx_run_step _ r st st1 bs (concat bss' ++ rest) [] Hbne).
+        * rewrite prepend_nil. rewrite (IH st1 bss' Hl Hc); try assumption; try reflexivity.
+          -- cbn [c_acc st1 set_acc]. rewrite <- app_assoc. exact Hcat.
+          -- cbn [c_acc st1 set_acc]. lia.
+        * unfold Conn.rx_step. rewrite Hm. rewrite (read_segment_law r st false p bs _ ltac:(rewrite Hcomp; exact Hsl)).
+          rewrite (add_multi_more r ce st f e nf p (concat ps) Hl' Htg Hcat ltac:(lia)). reflexivity.
+  Qed.
+
+  (* the receive machine folded over the segments of ANY segmentation *)
   Lemma modern_run r ce c envs ss :
-    segmentation_hdr (fc_hlen fc) envs ss ->
+    0 < fc_hlen fc -> segmentation envs ss ->
     forall fs nfs (st : conn) bss,
     enveloped ce c fs envs nfs -> Forall (calm r) nfs ->
     c_modern st = true -> c_comp st = c -> c_target st = 0 -> c_acc st = [] ->
     seg_encoded sc c ss bss ->
     forall k rest, rx_run (length ss + k) r st (concat bss ++ rest) = prepend nfs (rx_run k r st rest).
   Proof.
-    unfold segmentation_hdr.
-    induction 1 as [|es1 es2 ss Hsz Hseg IH|e p0 ps es ss Hcat Hparts Hhl Hseg IH];
+    intro Hh. induction 1 as [|es1 es2 ss Hsz Hseg IH|e ps es ss Hcat Hparts Hseg IH];
       intros fs nfs st bss Henv Hcalm Hm Hcomp Htg Hacc Henc k rest.
     - inversion Henv; subst. inversion Henc; subst. cbn. rewrite prepend_nil. reflexivity.
     - destruct (enveloped_app_inv _ _ _ _ _ _ Henv) as (fs1 & fs2 & nfs1 & nfs2 & -> & -> & E1 & E2).
@@ -337,42 +337,53 @@ Section Abstract.
       + unfold Conn.rx_step. rewrite Hm. rewrite (read_segment_law r st true (concat es1) bs _ Hsl).
         rewrite (read_sc_delivers r ce st fs1 es1 nfs1 E1 Hc1); [reflexivity|].
         pose proof (concat_nonnil_length es1 (enveloped_nonnil _ _ _ _ _ E1)). lia.
-    - inversion Henv as [|f e' nf fs' es' nfs' Hl Henv']; subst.
-      inversion Hcalm as [|? ? Hc1 Hc2]; subst.
+    - inversion Henv as [|f e' nf fs' es' nfs' Hl Henv']; subst e' fs nfs es'.
+      inversion Hcalm as [|x0 l0 Hc1 Hc2]; subst x0 l0.
       destruct (seg_encoded_app_inv _ _ _ _ Henc) as (b1 & b2 & -> & Eb1 & Eb2).
       rewrite concat_app, <- app_assoc, app_length, map_length.
-      replace (length (p0 :: ps) + length ss + k)%nat with (length (p0 :: ps) + (length ss + k))%nat by lia.
-      rewrite (multi_run r ce (c_comp st) f (concat (p0 :: ps)) nf p0 ps st b1) by (try assumption; reflexivity).
-      rewrite (IH fs' nfs' st b2) by (try assumption; reflexivity). rewrite prepend_app. reflexivity.
+      replace (length ps + length ss + k)%nat with (length ps + (length ss + k))%nat by lia.
+      assert (Hst : reset st = st).
+      { unfold reset, set_acc. destruct st as [m cc t a]. cbn in *. subst. reflexivity. }
+      pose proof Hl as (_ & Hne & _).
+      rewrite (parts_run r ce c f e nf Hh ps st b1 Hl Hc1 Hm Hcomp); try assumption.
+      + rewrite Hst. rewrite (IH fs' nfs' st b2) by (try assumption; reflexivity). rewrite prepend_app. reflexivity.
+      + rewrite Hacc, Htg. unfold known_target. change (zlen (@nil Z)) with 0.
+        destruct (Z.ltb_spec 0 (fc_hlen fc)); [reflexivity|lia].
+      + rewrite Hacc. exact Hcat.
+      + rewrite Hacc. change (zlen (@nil Z)) with 0. pose proof (zlen_nonneg e).
+        assert (zlen e <> 0) by (intro E; apply Hne; apply zlen_zero_nil; exact E). lia.
   Qed.
 
-  (* (2) modern delivery for EVERY segmentation chosen by the peer: any grouping of whole envelopes into
-     self-contained segments of at most 131071 bytes, any split of one envelope (of any size) over >= 1 non-empty
-     non-self-contained segments whose first part holds the 9-byte header, large and small interleaved: the receive
-     machine delivers the same frames in the same order and ends with an empty accumulator, in the same state. *)
+  (* (2) modern delivery for EVERY segmentation the specification allows: any grouping of whole envelopes into
+     self-contained segments of at most 131071 bytes; any cut of one envelope (of any size) into any number of parts -
+     inside its header as well, empty parts included - carried by non-self-contained segments; large and small
+     interleaved: the receive machine delivers the same frames in the same order and ends with an empty accumulator, in
+     the same state.  (0 < fc_hlen: a header has at least one byte; it is 9.) *)
   Theorem modern_delivery r ce c fs envs nfs ss bss (st : conn) :
+    0 < fc_hlen fc ->
     enveloped ce c fs envs nfs -> Forall (calm r) nfs ->
-    segmentation_hdr (fc_hlen fc) envs ss -> seg_encoded sc c ss bss ->
+    segmentation envs ss -> seg_encoded sc c ss bss ->
     c_modern st = true -> c_comp st = c -> c_target st = 0 -> c_acc st = [] ->
     rx_all r st (concat bss) = (st, nfs, RxOk).
   Proof.
-    intros He Hc Hseg Henc Hm Hcomp Htg Hacc. unfold Conn.rx_all.
+    intros Hh He Hc Hseg Henc Hm Hcomp Htg Hacc. unfold Conn.rx_all.
     destruct (seg_encoded_nonnil _ _ _ Henc) as [Hne Hlen].
     pose proof (concat_nonnil_length bss Hne) as Hl.
     replace (S (length (concat bss))) with (length ss + (S (length (concat bss)) - length ss))%nat by lia.
     rewrite <- (app_nil_r (concat bss)) at 2.
-    rewrite (modern_run r ce c envs ss Hseg fs nfs st bss He Hc Hm Hcomp Htg Hacc Henc).
+    rewrite (modern_run r ce c envs ss Hh Hseg fs nfs st bss He Hc Hm Hcomp Htg Hacc Henc).
     rewrite rx_run_nil. cbn. rewrite app_nil_r. reflexivity.
   Qed.
 
-  (* what the code does when the first part of a split envelope is shorter than a header: the header decoder fails on
-     that part alone and the connection is aborted; nothing is delivered *)
-  Lemma first_part_without_header r (st : conn) p0 bs rest :
-    c_modern st = true -> c_target st = 0 -> seg_law (c_comp st) false p0 bs -> fc_dec_hdr fc p0 = DErr ->
-    rx_step r st (bs ++ rest) = (st, [], RxAbort, rest).
+  (* a header that does not decode (from the first fc_hlen accumulated bytes) aborts the connection *)
+  Lemma bad_header_aborts r (st : conn) p bs rest :
+    c_modern st = true -> c_target st = 0 -> seg_law (c_comp st) false p bs ->
+    fc_hlen fc <= zlen (c_acc st ++ p) -> fc_dec_hdr fc (c_acc st ++ p) = DErr ->
+    rx_step r st (bs ++ rest) = (set_acc st 0 (c_acc st ++ p), [], RxAbort, rest).
   Proof.
-    intros Hm Ht Hsl Hd. unfold Conn.rx_step. rewrite Hm, (read_segment_law r st false p0 bs rest Hsl).
-    unfold Conn.add_multi. rewrite Ht. cbn [Z.eqb]. rewrite Hd. reflexivity.
+    intros Hm Ht Hsl Hlen Hd. unfold Conn.rx_step. rewrite Hm, (read_segment_law r st false p bs rest Hsl).
+    unfold Conn.add_multi. rewrite Ht. cbn [Z.eqb andb]. replace (fc_hlen fc <=? zlen (c_acc st ++ p)) with true by lia.
+    rewrite Hd. reflexivity.
   Qed.
 
   (* ---------------------------------------------------------------------------------------------- (3) transmit *)
@@ -451,8 +462,8 @@ Section Abstract.
     rewrite Ht, (IH Hm Hc). reflexivity.
   Qed.
 
-  Lemma one_per_segment P envs : Forall (fun e => zlen e <= max_payload) envs ->
-    segmentation_with P envs (map WSelf envs).
+  Lemma one_per_segment envs : Forall (fun e => zlen e <= max_payload) envs ->
+    segmentation envs (map WSelf envs).
   Proof.
     induction 1 as [|e envs He _ IH]; [constructor|]. cbn [map].
     change (e :: envs) with ([e] ++ envs). replace (WSelf e) with (WSelf (concat [e])) by (cbn; rewrite app_nil_r; reflexivity).
@@ -460,12 +471,13 @@ Section Abstract.
   Qed.
 
   Theorem tx_rx_modern rs rr c fs envs nfs segbs (snd rcv : conn) :
+    0 < fc_hlen fc ->
     tx_script rs c fs envs nfs segbs -> Forall (calm rr) nfs ->
     c_modern snd = true -> c_comp snd = c ->
     c_modern rcv = true -> c_comp rcv = c -> c_target rcv = 0 -> c_acc rcv = [] ->
     exists wire, tx_all rs snd fs = (snd, Ok wire) /\ rx_all rr rcv wire = (rcv, nfs, RxOk).
   Proof.
-    intros Hs Hcalm Hm1 Hc1 Hm2 Hc2 Ht Ha. exists (concat segbs). split; [apply (tx_script_wire _ _ _ _ _ _ _ Hs Hm1 Hc1)|].
+    intros Hh Hs Hcalm Hm1 Hc1 Hm2 Hc2 Ht Ha. exists (concat segbs). split; [apply (tx_script_wire _ _ _ _ _ _ _ Hs Hm1 Hc1)|].
     apply (modern_delivery rr c c (map (fun f => fc_clear fc (tx_pre fc rs (mkConn true c 0 []) f)) fs) envs nfs (map WSelf envs) segbs rcv);
       try assumption.
     - clear -Hs. induction Hs; cbn [map]; constructor; assumption.
@@ -671,12 +683,11 @@ End Abstract.
 
 (* ================================================================================================ Part B *)
 (* ------------------------------------------------------------------------------------------------ segments *)
-Lemma segmentation_small P envs ss :
-  segmentation_with P envs ss -> Forall (fun w => zlen (ws_payload w) <= max_payload) ss.
+Lemma segmentation_small envs ss :
+  segmentation envs ss -> Forall (fun w => zlen (ws_payload w) <= max_payload) ss.
 Proof.
-  induction 1 as [|es1 es2 ss Hsz _ IH|e p0 ps es ss _ Hparts _ _ IH]; [constructor|constructor; assumption|].
-  apply Forall_app. split; [|exact IH]. apply Forall_map. cbn [ws_payload].
-  eapply Forall_impl; [|exact Hparts]. intros p [_ Hp]. exact Hp.
+  induction 1 as [|es1 es2 ss Hsz _ IH|e ps es ss _ Hparts _ IH]; [constructor|constructor; assumption|].
+  apply Forall_app. split; [|exact IH]. apply Forall_map. cbn [ws_payload]. exact Hparts.
 Qed.
 
 Lemma seg_encoded_wire {C} (sc : scodec C) c ss bss : seg_encoded sc c ss bss -> encode_wire sc c ss = Ok (concat bss).
@@ -779,15 +790,15 @@ Proof. induction 1 as [|rf rfs H _ IH]; cbn [map]; constructor; [apply raw_frame
    SegmentProofs; with LZ4 the payload compressor's contract (C08) is asked of every payload *)
 Theorem modern_delivery_raw r c lz4p rfs ss (st : conn compr) :
   Forall raw_ok rfs -> Forall (calm raw_fc r) rfs ->
-  segmentation_hdr 9 (map raw_env rfs) ss -> Forall (fun w => payload_ok lz4p c (ws_payload w)) ss ->
+  segmentation (map raw_env rfs) ss -> Forall (fun w => payload_ok lz4p c (ws_payload w)) ss ->
   c_modern st = true -> c_comp st = c -> c_target st = 0 -> c_acc st = [] ->
   exists wire, encode_wire (seg_sc lz4p) c ss = Ok wire /\
                rx_all raw_fc (seg_sc lz4p) r st wire = (st, rfs, RxOk).
 Proof.
   intros Hok Hcalm Hseg Hp Hm Hc Ht Ha.
-  destruct (seg_encoded_exists lz4p c ss (segmentation_small _ _ _ Hseg) Hp) as (bss & Henc).
+  destruct (seg_encoded_exists lz4p c ss (segmentation_small _ _ Hseg) Hp) as (bss & Henc).
   exists (concat bss). split; [apply seg_encoded_wire; exact Henc|].
-  apply (modern_delivery raw_fc (seg_sc lz4p) r c c rfs (map raw_env rfs) rfs ss bss st); try assumption.
+  apply (modern_delivery raw_fc (seg_sc lz4p) r c c rfs (map raw_env rfs) rfs ss bss st); try assumption; [reflexivity|].
   apply enveloped_raw. exact Hok.
 Qed.
 
@@ -825,15 +836,15 @@ Section FrameInstance.
 
   Definition ffc := frame_fc mc lz4b snb fatal.
 
-  Definition frame_normal (f : Frame) (n : Z) : Frame :=
+  Definition cframe_normal (f : Frame) (n : Z) : Frame :=
     {| f_Header := with_body_length (f_Header f) n; f_Body := norm_body msg_norm (f_Header f) (f_Body f) |}.
 
   Lemma frame_kind f n : frame_ok msg_ok f ->
-    fc_switch ffc (frame_normal f n) = fc_switch ffc f /\ fc_startup ffc (frame_normal f n) = fc_startup ffc f /\
-    fc_fatal ffc (frame_normal f n) = fc_fatal ffc f.
+    fc_switch ffc (cframe_normal f n) = fc_switch ffc f /\ fc_startup ffc (cframe_normal f n) = fc_startup ffc f /\
+    fc_fatal ffc (cframe_normal f n) = fc_fatal ffc f.
   Proof.
     intros (_ & _ & _ & _ & _ & (_ & _ & _ & Hm)).
-    cbn [fc_switch fc_startup fc_fatal ffc frame_fc frame_normal f_Header f_Body with_body_length h_Version norm_body bd_Message].
+    cbn [fc_switch fc_startup fc_fatal ffc frame_fc cframe_normal f_Header f_Body with_body_length h_Version norm_body bd_Message].
     apply H_kind. exact Hm.
   Qed.
 
@@ -843,7 +854,7 @@ Section FrameInstance.
     has (h_Flags (f_Header f)) HeaderFlagCompressed = false ->
     mc_encode mc (h_Version (f_Header f)) (bd_Message (f_Body f)) = Ok mb ->
     zlen (body_bytes (f_Header f) (f_Body f) mb) < 2147483648 - 9 ->
-    frame_law ffc ce cd f (encoded_plain f mb) (frame_normal f (zlen (body_bytes (f_Header f) (f_Body f) mb))).
+    frame_law ffc ce cd f (encoded_plain f mb) (cframe_normal f (zlen (body_bytes (f_Header f) (f_Body f) mb))).
   Proof.
     intros Hok Hv Hnc Hmb Hsz.
     set (n := zlen (body_bytes (f_Header f) (f_Body f) mb)) in *.
@@ -873,7 +884,7 @@ Section FrameInstance.
     has (h_Flags (f_Header f)) HeaderFlagCompressed = true ->
     mc_encode mc (h_Version (f_Header f)) (bd_Message (f_Body f)) = Ok mb ->
     cmp_compress k (body_bytes (f_Header f) (f_Body f) mb) = Ok y -> zlen y < 2147483648 - 9 ->
-    frame_law ffc c c f (hdr_bytes (with_body_length (f_Header f) (zlen y)) ++ y) (frame_normal f (zlen y)).
+    frame_law ffc c c f (hdr_bytes (with_body_length (f_Header f) (zlen y)) ++ y) (cframe_normal f (zlen y)).
   Proof.
     intros Hk Hloss Hok Hv Hc Hmb Hy Hsz.
     pose proof (zlen_nonneg y) as Hn0.
@@ -905,7 +916,7 @@ Section FrameInstance.
   | eo_cons f mb fs envs nfs :
       envelope_ok f mb -> envelopes_ok fs envs nfs ->
       envelopes_ok (f :: fs) (encoded_plain f mb :: envs)
-                   (frame_normal f (zlen (body_bytes (f_Header f) (f_Body f) mb)) :: nfs).
+                   (cframe_normal f (zlen (body_bytes (f_Header f) (f_Body f) mb)) :: nfs).
 
   Lemma enveloped_frames ce cd fs envs nfs : envelopes_ok fs envs nfs -> enveloped ffc ce cd fs envs nfs.
   Proof.
@@ -917,15 +928,15 @@ Section FrameInstance.
      kind obligation H_kind, and - with LZ4 - the payload compressor's contract on every payload *)
   Theorem modern_delivery_frames r c lz4p fs envs nfs ss (st : conn compr) :
     envelopes_ok fs envs nfs -> Forall (calm ffc r) nfs ->
-    segmentation_hdr 9 envs ss -> Forall (fun w => payload_ok lz4p c (ws_payload w)) ss ->
+    segmentation envs ss -> Forall (fun w => payload_ok lz4p c (ws_payload w)) ss ->
     c_modern st = true -> c_comp st = c -> c_target st = 0 -> c_acc st = [] ->
     exists wire, encode_wire (seg_sc lz4p) c ss = Ok wire /\
                  rx_all ffc (seg_sc lz4p) r st wire = (st, nfs, RxOk).
   Proof.
     intros Hok Hcalm Hseg Hp Hm Hc Ht Ha.
-    destruct (seg_encoded_exists lz4p c ss (segmentation_small _ _ _ Hseg) Hp) as (bss & Henc).
+    destruct (seg_encoded_exists lz4p c ss (segmentation_small _ _ Hseg) Hp) as (bss & Henc).
     exists (concat bss). split; [apply seg_encoded_wire; exact Henc|].
-    apply (modern_delivery ffc (seg_sc lz4p) r c c fs envs nfs ss bss st); try assumption.
+    apply (modern_delivery ffc (seg_sc lz4p) r c c fs envs nfs ss bss st); try assumption; [reflexivity|].
     apply enveloped_frames. exact Hok.
   Qed.
 
@@ -999,47 +1010,6 @@ Proof.
   rewrite Hsw, orb_true_r in H3. split; [exact H1|]. split; [exact H3|]. rewrite H2. exact H3.
 Qed.
 
-(* ------------------------------------------------------------------------------------------------ refutation *)
-(* Full strength would be [modern_delivery] over [segmentation] (every split the specification allows).  It is false
-   for the code as it is: a peer that cuts an envelope inside its 9-byte header makes addMultiSegmentPayload decode
-   the header from the first part alone, which fails, and the connection is aborted.  Witness: a 29-byte QUERY envelope
-   of version 5 cut into parts of 5, 10 and 14 bytes. *)
-Definition witness_frame : RawFrame := raw_envelope 5 false 0 1 OpCodeQuery (filler 1 20).
-Definition witness_segments : list wire_seg := map WPart (cut (raw_env witness_frame) [5; 10]).
-Definition witness_wire : list Z :=
-  match encode_wire (seg_sc never_worth) CNone witness_segments with Ok w => w | Err => [] end.
-
-Lemma witness_frame_ok : raw_ok witness_frame /\ calm raw_fc Server witness_frame.
-Proof.
-  split; [|reflexivity]. unfold raw_ok, witness_frame, raw_envelope. cbn [rf_Header rf_Body h_Version h_BodyLength].
-  split; [|split; [lia|]].
-  - unfold header_ok. cbn [h_Version h_Flags h_StreamId h_OpCode h_IsResponse h_BodyLength].
-    split; [unfold supported, spec_versions, V2, V3, V4, V5, DSE1, DSE2; cbn [In]; tauto|].
-    split; [lia|]. split; [cbn; lia|]. split; [reflexivity|]. split; [reflexivity|]. vm_compute. split; [discriminate|reflexivity].
-  - eexists. split; [reflexivity|]. split; [reflexivity|]. vm_compute. reflexivity.
-Qed.
-
-Theorem split_before_header_refuted :
-  exists (rf : RawFrame) (ss : list wire_seg) (wire : list Z),
-    raw_ok rf /\ calm raw_fc Server rf /\
-    segmentation [raw_env rf] ss /\
-    Forall (fun w => payload_ok never_worth CNone (ws_payload w)) ss /\
-    encode_wire (seg_sc never_worth) CNone ss = Ok wire /\
-    rx_all raw_fc (seg_sc never_worth) Server (mkConn true CNone 0 []) wire = (mkConn true CNone 0 [], [], RxAbort).
-Proof.
-  exists witness_frame, witness_segments, witness_wire.
-  destruct witness_frame_ok as [H1 H2]. split; [exact H1|]. split; [exact H2|]. split; [|split; [|split]].
-  - unfold segmentation, witness_segments.
-    change (cut (raw_env witness_frame) [5; 10]) with
-      (firstn 5 (raw_env witness_frame) :: cut (skipn 5 (raw_env witness_frame)) [10]).
-    rewrite <- (app_nil_r (map WPart _)).
-    apply (sg_multi _ (raw_env witness_frame) _ _ [] []); [vm_compute; reflexivity| |exact I|constructor].
-    repeat constructor; vm_compute; discriminate.
-  - unfold witness_segments. repeat constructor; try (apply bytes_okb_ok; vm_compute; reflexivity); intro; discriminate.
-  - vm_compute. reflexivity.
-  - vm_compute. reflexivity.
-Qed.
-
 (* ------------------------------------------------------------------------------------------------ examples
    (non-vacuity: the hypotheses of the theorems above are met by concrete frames; used by props/C15.v) *)
 Lemma raw_envelope_ok (v : Z) (resp : bool) (flags sid op : Z) (body : list Z) :
@@ -1104,18 +1074,42 @@ Definition ex5_segments : list wire_seg :=
   WSelf (raw_env ex5_q1) :: map WPart (cut (raw_env ex5_q2) [20; 25]) ++ [WSelf (raw_env ex5_q3 ++ raw_env ex5_q4)].
 Definition modern0 : conn compr := mkConn true CNone 0 [].
 
-Lemma ex5_segmentation : segmentation_hdr 9 (map raw_env ex5_frames) ex5_segments.
+Lemma ex5_segmentation : segmentation (map raw_env ex5_frames) ex5_segments.
 Proof.
-  unfold segmentation_hdr.
-  change (segmentation_with (fun p0 : list Z => 9 <= zlen p0)
+  change (segmentation
             ([raw_env ex5_q1] ++ (raw_env ex5_q2 :: ([raw_env ex5_q3; raw_env ex5_q4] ++ [])))
             (WSelf (concat [raw_env ex5_q1]) ::
-             (map WPart (firstn 20 (raw_env ex5_q2) :: cut (skipn 20 (raw_env ex5_q2)) [25]) ++
+             (map WPart (cut (raw_env ex5_q2) [20; 25]) ++
               (WSelf (concat [raw_env ex5_q3; raw_env ex5_q4]) :: [])))).
   apply sg_self; [vm_compute; discriminate|].
-  apply sg_multi; [vm_compute; reflexivity| |vm_compute; discriminate|].
+  apply sg_multi; [vm_compute; reflexivity| |].
   - repeat constructor; vm_compute; discriminate.
   - apply sg_self; [vm_compute; discriminate|constructor].
+Qed.
+
+(* (2) a cut INSIDE the 9-byte header, and zero-length parts: the 29-byte envelope ex5_q1 carried by non-self-contained
+   segments of 5, 0, 3, 21 and 0 bytes, followed by a self-contained segment *)
+Definition ex5h_segments : list wire_seg :=
+  map WPart [firstn 5 (raw_env ex5_q1); []; firstn 3 (skipn 5 (raw_env ex5_q1)); skipn 8 (raw_env ex5_q1); []] ++ [WSelf (raw_env ex5_q4)].
+Lemma ex5h_segmentation : segmentation (map raw_env [ex5_q1; ex5_q4]) ex5h_segments.
+Proof.
+  unfold ex5h_segments. cbn [map].
+  change (segmentation (raw_env ex5_q1 :: ([raw_env ex5_q4] ++ []))
+            (map WPart [firstn 5 (raw_env ex5_q1); []; firstn 3 (skipn 5 (raw_env ex5_q1)); skipn 8 (raw_env ex5_q1); []] ++
+             (WSelf (concat [raw_env ex5_q4]) :: []))).
+  apply sg_multi; [vm_compute; reflexivity| |].
+  - repeat constructor; vm_compute; discriminate.
+  - apply sg_self; [vm_compute; discriminate|constructor].
+Qed.
+Lemma ex_header_cut :
+  exists wire, encode_wire ex_sc CNone ex5h_segments = Ok wire /\
+               rx_all raw_fc ex_sc Server modern0 wire = (modern0, [ex5_q1; ex5_q4], RxOk).
+Proof.
+  apply (modern_delivery_raw Server CNone never_worth [ex5_q1; ex5_q4] ex5h_segments modern0); try reflexivity.
+  - ex_forall ex_raw_ok.
+  - ex_forall reflexivity.
+  - exact ex5h_segmentation.
+  - unfold ex5h_segments. cbn [map app]. ex_forall ltac:(split; [ex_bytes_ok|intro; discriminate]).
 Qed.
 
 Lemma ex_modern_split :
@@ -1269,7 +1263,7 @@ Qed.
 
 Definition exf_frames : list Frame := [ex_opt 1; ex_opt 2; ex_opt 3].
 Definition exf_env (f : Frame) : list Z := encoded_plain f [].
-Definition exf_nf (f : Frame) : Frame := frame_normal mini_norm f (zlen (body_bytes (f_Header f) (f_Body f) [])).
+Definition exf_nf (f : Frame) : Frame := cframe_normal mini_norm f (zlen (body_bytes (f_Header f) (f_Body f) [])).
 Definition exf_segments : list wire_seg := [WSelf (exf_env (ex_opt 1) ++ exf_env (ex_opt 2)); WPart (exf_env (ex_opt 3))].
 Definition exf_fc := ffc mini_mc no_body_comp no_body_comp no_fatal.
 
@@ -1281,12 +1275,119 @@ Proof.
            Server CNone never_worth exf_frames (map exf_env exf_frames) (map exf_nf exf_frames) exf_segments modern0); try reflexivity.
   - unfold exf_frames. cbn [map]. repeat (constructor; [apply ex_opt_ok; lia|]). constructor.
   - ex_forall reflexivity.
-  - unfold segmentation_hdr, exf_segments, exf_frames. cbn [map].
-    change (segmentation_with (fun p0 : list Z => 9 <= zlen p0)
+  - unfold exf_segments, exf_frames. cbn [map].
+    change (segmentation
               ([exf_env (ex_opt 1); exf_env (ex_opt 2)] ++ (exf_env (ex_opt 3) :: []))
               (WSelf (concat [exf_env (ex_opt 1); exf_env (ex_opt 2)]) :: (map WPart (exf_env (ex_opt 3) :: []) ++ []))).
     apply sg_self; [vm_compute; discriminate|].
-    apply sg_multi; [vm_compute; reflexivity| |vm_compute; discriminate|constructor].
+    apply sg_multi; [vm_compute; reflexivity| |constructor].
     repeat constructor; vm_compute; discriminate.
   - unfold exf_segments. ex_forall ltac:(split; [ex_bytes_ok|intro; discriminate]).
+Qed.
+
+(* ================================================================================================ Part C
+   the frame instance over the assembled message codecs (model/MsgCodec.v): H_rt and H_len are FrameFinal.H_rt_concrete /
+   H_len_concrete (C01 / C03), H_kind is proved here; nothing is left to assume about messages *)
+From GCNP Require Import model.MsgRequests model.MsgCodec model.MsgValid model.FrameValid proofs.MsgCodecProofs proofs.FrameFinal.
+
+(* processIncomingFrame: OpCode == Error && ErrorCode.IsFatalError() (ServerError, ProtocolError, AuthenticationError) *)
+Definition msg_fatal (m : Message) : bool :=
+  match m with M_ServerError _ | M_ProtocolError _ | M_AuthenticationError _ => true | _ => false end.
+
+Lemma msg_switch_opcode v m :
+  msg_switch v m = ProtocolVersion_SupportsModernFramingLayout v && ((msg_opcode m =? OpCodeReady) || (msg_opcode m =? OpCodeAuthenticate)).
+Proof. destruct m; reflexivity. Qed.
+Lemma msg_startup_opcode m : msg_opcode m <> OpCodeStartup -> msg_startup m = None.
+Proof. destruct m; try reflexivity. intro H; exfalso; apply H; reflexivity. Qed.
+Lemma msg_fatal_opcode m : msg_opcode m <> OpCodeError -> msg_fatal m = false.
+Proof. destruct m; try reflexivity; intro H; exfalso; apply H; reflexivity. Qed.
+
+(* the normal form of a message is a message of the same kind *)
+Lemma kind_concrete : forall v m, msg_ok v m ->
+  msg_switch v (norm_message v m) = msg_switch v m /\ msg_startup (norm_message v m) = msg_startup m /\
+  msg_fatal (norm_message v m) = msg_fatal m.
+Proof.
+  intros v m _. destruct (norm_message_opcode v m) as [Hop _].
+  split; [rewrite !msg_switch_opcode, Hop; reflexivity|].
+  destruct m; try (split; reflexivity);
+    (split; [apply eq_trans with (y := @None compr); [apply msg_startup_opcode; rewrite Hop; cbv; discriminate|reflexivity]
+            |rewrite msg_fatal_opcode by (rewrite Hop; cbv; discriminate); reflexivity]).
+Qed.
+
+Definition cfc (lz4b snb : Frame.compressor) : fcodec Frame Header compr := ffc the_msg_codec lz4b snb msg_fatal.
+
+(* a frame accepted by the executable validity predicate of C01 travels as an envelope *)
+Lemma envelope_of_valid f :
+  frame_okb f = true -> 3 <= h_Version (f_Header f) -> has (h_Flags (f_Header f)) HeaderFlagCompressed = false ->
+  exists mb, mc_encode the_msg_codec (h_Version (f_Header f)) (bd_Message (f_Body f)) = Ok mb /\
+             (zlen (body_bytes (f_Header f) (f_Body f) mb) < 2147483648 - 9 -> envelope_ok the_msg_codec msg_ok f mb).
+Proof.
+  intros Hok Hv Hnc. pose proof (frame_okb_valid f Hok) as Hval.
+  pose proof Hval as (Hs & _ & _ & _ & _ & (_ & _ & _ & Hm)).
+  destruct (H_rt_concrete _ _ Hs Hm) as (mb & Hmb & _). exists mb. split; [exact Hmb|].
+  intro Hsz. unfold envelope_ok. split; [exact Hval|]. split; [exact Hv|]. split; [exact Hnc|]. split; [exact Hmb|exact Hsz].
+Qed.
+
+Theorem modern_delivery_concrete r c lz4p lz4b snb fs envs nfs ss (st : conn compr) :
+  envelopes_ok the_msg_codec msg_ok norm_message fs envs nfs -> Forall (calm (cfc lz4b snb) r) nfs ->
+  segmentation envs ss -> Forall (fun w => payload_ok lz4p c (ws_payload w)) ss ->
+  c_modern st = true -> c_comp st = c -> c_target st = 0 -> c_acc st = [] ->
+  exists wire, encode_wire (seg_sc lz4p) c ss = Ok wire /\
+               rx_all (cfc lz4b snb) (seg_sc lz4p) r st wire = (st, nfs, RxOk).
+Proof.
+  exact (modern_delivery_frames the_msg_codec msg_ok norm_message H_rt_concrete H_len_concrete lz4b snb msg_fatal kind_concrete
+           r c lz4p fs envs nfs ss st).
+Qed.
+
+Theorem legacy_delivery_concrete r lz4p lz4b snb fs envs nfs (st : conn compr) :
+  envelopes_ok the_msg_codec msg_ok norm_message fs envs nfs -> Forall (calm (cfc lz4b snb) r) nfs -> c_modern st = false ->
+  rx_all (cfc lz4b snb) (seg_sc lz4p) r st (concat envs) = (st, nfs, RxOk).
+Proof.
+  exact (legacy_delivery_frames the_msg_codec msg_ok norm_message H_rt_concrete H_len_concrete lz4b snb msg_fatal kind_concrete
+           r lz4p fs envs nfs st).
+Qed.
+
+Theorem compressed_frame_law_concrete lz4b snb c k f mb y :
+  body_comp lz4b snb c = Some k -> comp_lossless k ->
+  frame_valid f -> 3 <= h_Version (f_Header f) ->
+  has (h_Flags (f_Header f)) HeaderFlagCompressed = true ->
+  mc_encode the_msg_codec (h_Version (f_Header f)) (bd_Message (f_Body f)) = Ok mb ->
+  cmp_compress k (body_bytes (f_Header f) (f_Body f) mb) = Ok y -> zlen y < 2147483648 - 9 ->
+  frame_law (cfc lz4b snb) c c f (hdr_bytes (with_body_length (f_Header f) (zlen y)) ++ y) (frame_normal f (zlen y)).
+Proof.
+  exact (frame_law_compressed the_msg_codec msg_ok norm_message H_rt_concrete H_len_concrete lz4b snb msg_fatal kind_concrete c k f mb y).
+Qed.
+
+(* non-vacuity with the real message codecs: OPTIONS frames of version 5; the first envelope (9 bytes) is cut INSIDE its
+   header into parts of 4, 0 and 5 bytes, the other two share a self-contained segment *)
+Definition exc_fc := cfc no_body_comp no_body_comp.
+Definition exc_nf (f : Frame) : Frame := frame_normal f (zlen (body_bytes (f_Header f) (f_Body f) [])).
+Definition exc_segments : list wire_seg :=
+  map WPart [firstn 4 (exf_env (ex_opt 1)); []; skipn 4 (exf_env (ex_opt 1))] ++ [WSelf (exf_env (ex_opt 2) ++ exf_env (ex_opt 3))].
+
+Lemma exc_opt_ok sid : -32768 <= sid < 32768 -> envelope_ok the_msg_codec msg_ok (ex_opt sid) [].
+Proof.
+  intro Hs. destruct (envelope_of_valid (ex_opt sid)) as (mb & Hmb & Hok).
+  - unfold frame_okb, ex_opt, NewFrame. cbn -[Z.leb Z.ltb]. repeat (apply andb_true_intro; split); try reflexivity; lia.
+  - cbn. lia.
+  - reflexivity.
+  - assert (mb = []) by (vm_compute in Hmb; injection Hmb as <-; reflexivity). subst mb. apply Hok. vm_compute. reflexivity.
+Qed.
+
+Lemma ex_concrete_instance :
+  exists wire, encode_wire ex_sc CNone exc_segments = Ok wire /\
+               rx_all exc_fc ex_sc Server modern0 wire = (modern0, map exc_nf exf_frames, RxOk).
+Proof.
+  apply (modern_delivery_concrete Server CNone never_worth no_body_comp no_body_comp exf_frames (map exf_env exf_frames)
+           (map exc_nf exf_frames) exc_segments modern0); try reflexivity.
+  - unfold exf_frames. cbn [map]. repeat (constructor; [apply exc_opt_ok; lia|]). constructor.
+  - ex_forall reflexivity.
+  - unfold exc_segments, exf_frames. cbn [map].
+    change (segmentation (exf_env (ex_opt 1) :: ([exf_env (ex_opt 2); exf_env (ex_opt 3)] ++ []))
+              (map WPart [firstn 4 (exf_env (ex_opt 1)); []; skipn 4 (exf_env (ex_opt 1))] ++
+               (WSelf (concat [exf_env (ex_opt 2); exf_env (ex_opt 3)]) :: []))).
+    apply sg_multi; [vm_compute; reflexivity| |].
+    + repeat constructor; vm_compute; discriminate.
+    + apply sg_self; [vm_compute; discriminate|constructor].
+  - unfold exc_segments. cbn [map app]. ex_forall ltac:(split; [ex_bytes_ok|intro; discriminate]).
 Qed.
